@@ -203,6 +203,54 @@ impl<K: KeyT, V: ValT> World<K, V> {
         Ok(())
     }
 
+    /// After an interrupted call: make every model hold what *lookups* find (not what iteration
+    /// yields), so that the iterators are then judged against an independent view (C08).
+    pub fn adopt_by_lookup(&mut self) -> Result<(), String> {
+        let uni = if K::CLASS == ElemClass::Zst { 1 } else { self.cfg.universe.min(4096) };
+        for (mi, slot) in self.maps.iter_mut().enumerate() {
+            let mut keys: Vec<u32> = (0..uni).collect();
+            keys.extend(slot.model.keys().copied().filter(|k| *k >= uni));
+            let r = call(|| {
+                let mut m = std::collections::BTreeMap::new();
+                for kv in keys {
+                    let probe = K::probe(kv);
+                    if let Some((k, v)) = sut(|| slot.m.get_key_value(&probe)) {
+                        m.insert(kv, MEntry { kid: k.oid(), vid: v.oid(), p: v.payload() });
+                    }
+                }
+                m
+            });
+            match r.result {
+                Ok(m) => slot.model = m,
+                Err(p) => return Err(format!("panic while looking up keys of map {}: {:?}", mi, p)),
+            }
+            let st = slot.m.verif_state();
+            slot.countdown = if st.split && st.old_len > 0 { Some(((st.old_len + st.r - 1) / st.r.max(1)) as u64) } else { None };
+        }
+        for (si, slot) in self.sets.iter_mut().enumerate() {
+            let mut keys: Vec<u32> = (0..uni).collect();
+            keys.extend(slot.model.keys().copied().filter(|k| *k >= uni));
+            let r = call(|| {
+                let mut m = std::collections::BTreeMap::new();
+                for kv in keys {
+                    let probe = K::probe(kv);
+                    if let Some(k) = sut(|| slot.s.get(&probe)) {
+                        m.insert(kv, k.oid());
+                    }
+                }
+                m
+            });
+            match r.result {
+                Ok(m) => slot.model = m,
+                Err(p) => return Err(format!("panic while looking up elements of set {}: {:?}", si, p)),
+            }
+            let st = slot.s.verif_state();
+            slot.countdown = if st.split && st.old_len > 0 { Some(((st.old_len + st.r - 1) / st.r.max(1)) as u64) } else { None };
+        }
+        let _ = ctx::take_errors();
+        Ok(())
+    }
+
     /// Sorted contents of every collection as the collections themselves report them.
     pub fn final_contents(&self) -> String {
         let mut s = String::from("final:");
